@@ -1,0 +1,52 @@
+// Copyright 2021-2022 Buf Technologies, Inc.
+//
+// Licensed under the Apache License, Version 2.0 (the "License");
+// you may not use this file except in compliance with the License.
+// You may obtain a copy of the License at
+//
+//      http://www.apache.org/licenses/LICENSE-2.0
+//
+// Unless required by applicable law or agreed to in writing, software
+// distributed under the License is distributed on an "AS IS" BASIS,
+// WITHOUT WARRANTIES OR CONDITIONS OF ANY KIND, either express or implied.
+// See the License for the specific language governing permissions and
+// limitations under the License.
+
+//go:build verif
+
+package connect
+
+import (
+	"bytes"
+	"sync/atomic"
+)
+
+// Verification hooks (build tag "verif"): see /verif/DESIGN.md §2.6.
+
+var verifYieldFn atomic.Pointer[func(string)]
+
+// VerifSetYield installs a function that is called at the duplex call's
+// named synchronisation points. Passing nil removes it.
+func VerifSetYield(f func(point string)) {
+	if f == nil {
+		verifYieldFn.Store(nil)
+		return
+	}
+	verifYieldFn.Store(&f)
+}
+
+func verifYield(point string) {
+	if f := verifYieldFn.Load(); f != nil {
+		(*f)(point)
+	}
+}
+
+// verifPoison overwrites a buffer that is being released to the pool, so
+// that any later use of its old contents shows up as corrupted data.
+func verifPoison(buffer *bytes.Buffer) {
+	b := buffer.Bytes()
+	b = b[:cap(b)]
+	for i := range b {
+		b[i] = 0xDB
+	}
+}
